@@ -60,4 +60,10 @@ CHECKS = {
     "C11": dict(engine=_C, technique="runtime monitoring: reference-model oracle over all relation kinds, all call forms and one-/multi-step slices, replicated under 5 PYTHONHASHSEED worker processes",
                 text="Held (except the listed known finding) on the executions observed: for each of the 13 relation constructions, keyword / positional (dimension order) / dict / list calls all return the table value, and every one-step and 2-3 step slice is a relation over exactly the remaining variables that agrees with the table on every completion, under hash seeds 0,1,2,3,12345.",
                 note="Relations over <= 4 variables, domains <= 3, variable lists permuted; per-process consistency is what is required under each hash seed."),
+    "C13": dict(engine=_C, technique="runtime monitoring: reference-model oracle (hard-term count, soft sum from harness tables) on generated DCOP.solution_cost / assignment_cost calls",
+                text="Held on the executions observed: solution_cost == (number of constraint and variable-cost terms equal to infinity, sum of the others) incl. zero-ary constraints, falsy domain values, external variables; every strict sub-assignment (also padded with foreign keys) raised ValueError; assignment_cost equals the defining sums with and without variable costs and with kwargs values; add_agents accepts AgentDef/list/tuple/dict.",
+                note="infinity in {10000, 1000, inf}; <= 6 variables; plain left-to-right float sums."),
+    "C14": dict(engine=_C, technique="runtime monitoring: round-trip oracle dcop_yaml -> load_dcop / load_dcop_from_file (str, list, split files) against the generator's description",
+                text="Held on the executions observed: loaded DCOPs have the same domains (values and types), variables, initial values (incl. 0), every extensional and intentional constraint equal on every assignment, and every agent the same capacity, route() for all pairs incl. self and hosting_cost() for all computations incl. an unknown one.",
+                note="Restricted to what the format expresses: one global default route, symmetric routes, no variable cost functions, space-free string values."),
 }
